@@ -125,7 +125,7 @@ func (s *shapeGen) values(fs fieldSpec, ty string) []string {
 		return out
 	case fAddrStr:
 		out := []string{fmt.Sprintf("%x", f.A(1))}
-		for _, x := range append([]string{upper(f.A(1)), "cosmos1", "noble1qv9pzxqlyckngw6zf9g9whn9d3eh4qvg3u3gv759", sdk.AccAddress(g.r.Bytes(32)).String(), sdk.AccAddress(g.r.Bytes(255)).String(), sdk.AccAddress(g.r.Bytes(1)).String()}, oddStrings...) {
+		for _, x := range append([]string{upper(f.A(1)), "cosmos1", "noble1qv9pzxqlyckngw6zf9g9whn9d3eh4qvg3u3gv759", sdk.AccAddress(g.r.Bytes(32)).String(), sdk.AccAddress(g.r.Bytes(255)).String(), sdk.AccAddress(g.r.Bytes(1)).String()}, append(nearAddrs(f.A(1)), oddStrings...)...) {
 			out = append(out, fmt.Sprintf("%x", x))
 		}
 		return out
@@ -144,7 +144,7 @@ func (s *shapeGen) froms(ty string) []string {
 	}
 	return []string{base, "", "garbage", upper(base), "noble1qv9pzxqlyckngw6zf9g9whn9d3eh4qvg3u3gv759", sdk.AccAddress(g.r.Bytes(32)).String(),
 		sdk.AccAddress(g.r.Bytes(33)).String(), sdk.AccAddress(g.r.Bytes(255)).String(), sdk.AccAddress(g.r.Bytes(1)).String(), sdk.AccAddress(g.r.Bytes(19)).String(),
-		"\xff\xfe", "cosmos1\xe6\x97\xa5", strings.Repeat("c", 300)}
+		"\xff\xfe", "cosmos1\xe6\x97\xa5", strings.Repeat("c", 300), " " + base, base + " ", base + "\n", base + "\x00", base[:len(base)-1]}
 }
 
 func (s *shapeGen) oneTx(ty string, vals map[string]string, from string) {
